@@ -435,6 +435,20 @@ impl World {
                     }
                 }
                 if !verdict.allowed.contains(child) {
+                    // The reference takes *its* step (the child the rule names, if any), so that the
+                    // caller can still hold the canister's answers against the reference: a canister
+                    // that moved its anchor off the chain being served answers every tip, header
+                    // and UTXO query from the wrong branch from now on.
+                    if step == 0 {
+                        if let Some(r) = verdict.required.or_else(|| verdict.allowed.first().copied()) {
+                            let old_anchor = self.tree.anchor;
+                            self.tree.advance_to(r);
+                            self.stable_chain.push(old_anchor);
+                            let new_h = self.anchor_height();
+                            self.announced.retain(|_, (h, _)| *h > new_h);
+                            self.reference_took_other_step = true;
+                        }
+                    }
                     return Err(violation(
                         "C03",
                         "advance-not-due",
@@ -639,6 +653,54 @@ impl World {
         }
         if after.stable_height != self.anchor_height() {
             return Err(self.desync("stable-height-mismatch", format!("canister stable height {} vs model {}", after.stable_height, self.anchor_height())));
+        }
+        // ---- C03 (i): the block recorded at a stable height never changes ----
+        if self.is_active("C03") {
+            self.check_stable_records(advanced)?;
+        }
+        Ok(())
+    }
+
+    /// C03 (i): for every stable height the canister's stable record (header store) names the block
+    /// that stabilised at that height — present, and never a different one. Newly stabilised heights
+    /// and a rotating sample of older ones after every message; `full` = every height.
+    pub fn check_stable_records(&mut self, full: bool) -> Check {
+        let n = self.stable_chain.len();
+        if n == 0 {
+            return Ok(());
+        }
+        let mut heights: Vec<usize> = vec![];
+        if full && n <= 64 {
+            heights.extend(0..n);
+        } else {
+            // the most recent ones (an advance may add several) plus a rotating older sample
+            heights.extend(n.saturating_sub(3)..n);
+            let r = self.event_index as usize;
+            heights.push(r % n);
+            heights.push((r * 7 + 3) % n);
+            if full {
+                heights.extend((0..n).step_by((n / 48).max(1)));
+            }
+        }
+        for h in heights {
+            let want = self.block(self.stable_chain[h]).hash;
+            let got: Option<Hash32> = ic_btc_canister::with_state(|s| s.stable_block_headers.get_with_height(h as u32)).map(|hd| {
+                let mut a = [0u8; 32];
+                a.copy_from_slice(&bitcoin::hashes::Hash::to_byte_array(hd.block_hash()));
+                a
+            });
+            self.stats.oracle_comparisons += 1;
+            if got != Some(want) {
+                return Err(violation(
+                    "C03",
+                    "stable-record-wrong",
+                    format!(
+                        "the block recorded at stable height {h} is {} but block #{} stabilised there",
+                        got.map(hex::encode).unwrap_or_else(|| "missing".into()),
+                        self.stable_chain[h]
+                    ),
+                ));
+            }
         }
         Ok(())
     }
@@ -864,6 +926,9 @@ impl World {
                 "valid-block-never-applied",
                 format!("after quiescence valid offered blocks {:?} are not part of the canister's view", missing),
             ));
+        }
+        if self.is_active("C03") {
+            self.check_stable_records(true)?;
         }
         self.stats.probe("quiesced");
         Ok(())
